@@ -59,6 +59,9 @@ def instantiate(row, rng, n):
             co = {"a": F(0), "b": b, "c": c, "d": F(0), "e": F(0), "f": f}
         elif conv == "RATGEN":
             co = {"a": F(1), "b": F(2), "c": F(3), "d": rng.choice([F(0), F(1)]), "e": F(1), "f": F(5)}
+            if rng.random() < 0.5:
+                # a quadratic numerator over a constant denominator is not the linear special case either
+                co = {"a": rng.choice([F(1), F(-2)]), "b": rng.choice([F(2), F(0)]), "c": F(3), "d": F(0), "e": F(0), "f": F(5)}
 
         def term(t):
             if t == "RawLo":
